@@ -38,6 +38,9 @@ def gen_cases(tier, seed):
                      gopts={"path": "witness/C06_filter_penalty_overflow.json"})
     w.update(log="CRITICAL", display_interval=0.1, y0="none", fmt="coo")
     cases.append(w)
+    # stored witnesses of repaired defects 19 and 20 (instances as plain data, independent of the generators)
+    cases.append({'fam': 'FILE', 'gseed': [0], 'cfg': {'newton': 'Full', 'step_solver': 'Symmetric', 'linear': 'GMRES', 'control': 'DistanceRatio', 'penalty': 'LagrangianFilter', 'active': 'SmallestActiveSet', 'scaling': 'none', 'iteration_limit': 300, 'K_P': 0.9747019779428236, 'K_I': 0.09053247692043143, 'newton_tol': 1e-08}, 'gopts': {'path': 'witness/C06_controller_overflow.json'}, 'fmt': 'dok', 'dup': 0, 'y0': 'none', 'log': 'DEBUG', 'display_interval': 0.1})
+    cases.append({'fam': 'FILE', 'gseed': [0], 'cfg': {'newton': 'ActiveSet', 'step_solver': 'Symmetric', 'linear': 'LU', 'control': 'Fixed', 'penalty': 'ParetoDecrease', 'active': 'Explicit', 'scaling': 'custom', 'tau': 1.0, 'iteration_limit': 300, 'report_rcond': True, 'collect_path': True, 'rho': 0.06779697154482475, 'weights': {'vw': [-6, 4, 3, 6, -3, -5, 0, -3, 1, -4, -1, 0], 'cw': [4, 4], 'ow': 4}}, 'gopts': {'path': 'witness/C06_pareto_overflow.json'}, 'fmt': 'csc', 'dup': 2, 'y0': 'none', 'log': 'CRITICAL', 'display_interval': 0.1})
     for _ in range(nrand):
         fam = str(rng.choice(FAMS, p=[0.2, 0.3, 0.0, 0.15, 0.15, 0.1, 0.1]))
         cases.append(_case(rng, fam, [seed, k], C.sample(rng)))
@@ -75,11 +78,13 @@ def _case(rng, fam, gseed, cfgd):
         case["fmt"] = str(rng.choice(["dia", "diaj", "bsr", "lil", "dok"]))
         if rng.random() < 0.3 and fam in ("QP", "NLP"):
             case["gopts"] = dict(case.get("gopts", {}), row_force=["eq"] * 12)
-    if fam == "DEG" and rng.random() < 0.25:
+    if rng.random() < 0.15:
+        case["deriv_check"] = str(rng.choice(["first", "second", "all"]))
+    if fam == "DEG" and rng.random() < 0.4:
         # an equality row with an all-zero Jacobian, handed over unconverted (no scaling, no slack) in any format
         case["gopts"] = {"variant": 6}
         cfgd["scaling"] = "none"
-        case["fmt"] = str(rng.choice(["dia", "diaj", "bsr", "lil", "dok", "coo", "csr", "csc"]))
+        case["fmt"] = ["dia", "diaj", "dia", "bsr", "lil", "dok", "coo", "csr", "csc", "diaj"][gseed[-1] % 10]
         case["zero_jac_eq"] = True
     if fam in ("QP", "NLP") and "gopts" not in case and rng.random() < 0.1:
         case["gopts"] = {"row_force": ["free"]}   # a row without any bound
@@ -132,7 +137,8 @@ def judge(case, p, out):
                 viol.append({"what": "returned %s is not finite (status %s)" % (nm, r.status.name),
                              "key": dict(key, kind="non-finite-result", field=nm, status=r.status.name)})
         return viol, cls
-    if out.kind in ("initial", "lamb_max", "line_search"):
+    if out.kind in ("initial", "lamb_max", "line_search", "DerivError"):
+        # (whether a DerivError is justified is C19's question; here it is one of the deliberate failures)
         return viol, "raise:" + out.kind
     viol.append({"what": "solve() died with %s at %s: %s" % (type(out.exc).__name__, out.site, str(out.exc)[:120]),
                  "key": dict(key, kind="crash", exc=type(out.exc).__name__, site=out.site),
@@ -143,6 +149,11 @@ def judge(case, p, out):
 def run_case(case):
     p = work.prepare(case, record_sites=False, keep_args=False)
     p.params.display_interval = case.get("display_interval", 0.1)
+    if case.get("deriv_check"):
+        from pygradflow.params import DerivCheck
+
+        p.params.deriv_check = {"first": DerivCheck.CheckFirst, "second": DerivCheck.CheckSecond,
+                                "all": DerivCheck.CheckAll}[case["deriv_check"]]
     with Logging(case.get("log", "CRITICAL")):
         out = mon.run_solve(p.rec, p.params, p.x0, p.y0)
     viol, cls = judge(case, p, out)
@@ -155,6 +166,10 @@ def run_case(case):
         res["ctr"]["%s_%s" % (ax, c[ax])] = 1
     res["ctr"]["log_" + case.get("log", "CRITICAL")] = 1
     res["ctr"]["fmt_" + p.fmt] = 1
+    if case.get("deriv_check"):
+        res["ctr"]["runs_with_derivative_check"] = 1
+        res["ctr"]["runs_with_derivative_check_debug_log"] = int(case.get("log") == "DEBUG")
+        res["ctr"]["runs_with_derivative_check_no_constraints"] = int(p.spec.m == 0)
     if case.get("zero_jac_eq"):
         res["ctr"]["zero_jacobian_equality_fmt_" + p.fmt] = 1
     if case["cfg"].get("report_rcond"):
@@ -178,7 +193,8 @@ def finalize(agg, tier):
                 "distinct by spec seed",
         "floors": {"outcome_status:Optimal": 200, "log_DEBUG": 100, "report_rcond_on": 100,
                    "outcome_raise:lamb_max": 5, "newton_Globalized": 50, "linear_MINRES": 10,
-                   "penalty_LagrangianFilter": 50, "family_NCVX": 50, "fmt_dia": 20, "fmt_bsr": 20, "zero_jacobian_equality_fmt_dia": 3},
+                   "penalty_LagrangianFilter": 50, "family_NCVX": 50, "fmt_dia": 20, "fmt_bsr": 20, "zero_jacobian_equality_fmt_dia": 3, "runs_with_derivative_check": 60,
+                   "runs_with_derivative_check_debug_log": 10, "runs_with_derivative_check_no_constraints": 10},
         "assumptions": ["exceptions raised while constructing the Solver (scaling computation) are counted, not judged: "
                         "the property speaks about solve()",
                         "deliberate failures are recognised by type Exception and message prefix, DerivError by type"],
